@@ -215,3 +215,56 @@ def sort_recursion(rep, R, facts):
                     problems.append(f'line {n.get("l")}: the comparison function is not passed on to the recursion')
         rep.check(R, f'{d}|recursion', len(rec) == 1 and not problems, 'one self-recursive call, guarded by is_dotted()' + (', comparison passed on' if d.endswith('_internal') else ''),
                   f'`{d}`: ' + ('; '.join(problems) if problems else f'{len(rec)} recursive sort calls instead of 1'), facts.loc(b))
+
+
+def pattern_bindings(pat, expr, out):
+    """bind the locals of a pattern to the sub-expressions they are matched against: tuples position-wise, constructor
+    patterns (Some(x), Ok(x)) look through to the same expression"""
+    from .core import peel
+    k = pat.get('k')
+    if k == 'p_bind':
+        out[pat['name']] = expr
+        if 'sub' in pat:
+            pattern_bindings(pat['sub'], expr, out)
+    elif k == 'p_tuple':
+        e = peel(expr)
+        if e.get('k') == 'tup' and len(e['elems']) == len(pat.get('pats', [])):
+            for pp, ee in zip(pat['pats'], e['elems']):
+                pattern_bindings(pp, ee, out)
+    elif k == 'p_tuplestruct' and len(pat.get('pats', [])) == 1:
+        pattern_bindings(pat['pats'][0], expr, out)
+    elif k in ('p_ref', 'p_deref') and 'pat' in pat:
+        pattern_bindings(pat['pat'], expr, out)
+
+
+def local_origins(body):
+    """local name -> expression it is bound from (let / if-let / while-let with tuple and Some(..) patterns)"""
+    from .core import walk
+    out = {}
+    for n in walk(body):
+        if n.get('k') in ('let', 'letexpr') and 'init' in n and 'pat' in n:
+            pattern_bindings(n['pat'], n['init'], out)
+    return out
+
+
+def method_chain(e, origins, depth=0):
+    """(root local, [method / field names from the root outwards]) of an expression, following bound locals"""
+    from .core import peel
+    e = peel(e)
+    k = e.get('k')
+    if depth > 12:
+        return None, []
+    if k == 'mcall':
+        r, ms = method_chain(e['recv'], origins, depth + 1)
+        return r, ms + [e.get('name')]
+    if k in ('addrof', 'unary', 'deref'):
+        return method_chain(e.get('a') or e.get('e') or {}, origins, depth + 1)
+    if k == 'field':
+        r, ms = method_chain(e['base'], origins, depth + 1)
+        return r, ms + ['.' + str(e.get('name'))]
+    if k == 'path' and e.get('res') == 'Local':
+        nm = e.get('path')
+        if nm in origins:
+            return method_chain(origins[nm], origins, depth + 1)
+        return nm, []
+    return None, []
